@@ -72,11 +72,11 @@ pub fn replay(path: &str) -> i32 {
         Some("client-sm-wrap") => client_sm::replay_wrap(),
         Some("c14-pure") => client_sm::replay_c14_pure(scn),
         Some("c20-client") | Some("c20-server") | Some("c20-stream") => decode::replay_c20(scn),
-        Some("c09") | Some("c09-probe") | Some("c09-resumption") | Some("c09-validity") => tls::replay_c09(scn),
+        Some("c09") | Some("c09-probe") | Some("c09-resumption") | Some("c09-validity") | Some("c09-two-roles") => tls::replay_c09(scn),
         Some("c15") => sessions::replay_c15(scn),
         Some("c15-burst") => sessions::replay_burst(scn),
         Some("c05-backpressure") => sessions::replay_backpressure(scn),
-        Some("c16-string") | Some("c16-match") | Some("c16-server") | Some("c16-ffi") => filter::replay_c16(scn),
+        Some("c16-string") | Some("c16-match") | Some("c16-server") | Some("c16-ffi") | Some("c16-backlog") => filter::replay_c16(scn),
         Some("c19-db") | Some("c19-schedule") => ffi::replay_c19(scn),
         Some("c18-client") | Some("c18-server") | Some("c18-call-errors") | Some("c18-enums") => ffi::replay_c18(scn),
         Some("c06-pty") => {
